@@ -220,7 +220,7 @@ impl Sess {
             None => "?".to_string(),
             Some(i) => parse_debug_opt_label(&d[i + "last_label: ".len()..]),
         };
-        format!(
+        let s = format!(
             "E {} {} {} {}",
             match reuse.as_str() {
                 "true" => "1",
@@ -230,9 +230,24 @@ impl Sess {
             max,
             cur,
             last
-        )
+        );
+        // a field that cannot be read from the Debug output (renamed, regrouped): the whole state counts as
+        // not observable and only results are compared
+        if s.contains('?') || max.parse::<u32>().is_err() || cur.parse::<u32>().is_err() {
+            "E ?".to_string()
+        } else {
+            s
+        }
     }
 
+    /// degraded mode (the crate's verification hooks do not compile against the current source, so the
+    /// harness was built without them): the state of the receiver cannot be observed
+    #[cfg(not(dvb_gse_rust_verif))]
+    fn fmt_mem(&self, _m: &SimpleGseMemory) -> String {
+        "M ?".to_string()
+    }
+
+    #[cfg(dvb_gse_rust_verif)]
     fn fmt_mem(&self, m: &SimpleGseMemory) -> String {
         let free = m
             .verif_storages()
@@ -556,6 +571,15 @@ impl Sess {
         }
     }
 
+    #[cfg(not(dvb_gse_rust_verif))]
+    fn fmt_dec(&self) -> String {
+        match &self.dec {
+            None => "-".to_string(),
+            Some(d) => format!("D last=? {}", self.fmt_mem(&d.memory)),
+        }
+    }
+
+    #[cfg(dvb_gse_rust_verif)]
     fn fmt_dec(&self) -> String {
         match &self.dec {
             None => "-".to_string(),
